@@ -17,13 +17,272 @@ def node_at(fn, bid, i):
     return fn.nodes[e] if isinstance(e, int) else None
 
 
-def search(fn, starts, stop, target, include_entry=False, exit_is_target=None):
+# ---------------------------------------------------------------------------------------------------
+# FEAS: the two path-feasibility facts of DESIGN section 3 (no solver)
+#   (i)  a relation between two integer locals / parameters / literals keeps its truth value until one operand is written
+#   (ii) a local assigned an integer literal keeps that value until its next write
+# A path is discarded only when it contradicts one of these.
+# ---------------------------------------------------------------------------------------------------
+BRANCH_TERMS = {'IfStmt', 'ForStmt', 'WhileStmt', 'DoStmt', 'ConditionalOperator', 'BinaryOperator'}
+_ORD = {'<': frozenset('<'), '<=': frozenset('<='), '==': frozenset('='), '!=': frozenset('<>'), '>': frozenset('>'),
+        '>=': frozenset('>=')}
+_FLIP = {'<': '>', '>': '<', '=': '='}
+
+
+def _operand(fn, n):
+    n = fn.strip(n)
+    if n is None:
+        return None
+    if n['k'] == 'IntegerLiteral':
+        return ('c', int(n['val']))
+    if n['k'] == 'DeclRefExpr' and 'var' in n and not fn.locals[n['var']].get('ref'):
+        t = fn.locals[n['var']]['type']
+        if t in ('long', 'int', 'const long', 'const int', 'unsigned long', 'bool', 'const bool', 'unsigned int', 'short'):
+            return ('v', n['var'])
+    return None
+
+
+def _relation(fn, cond):
+    """(a, b, allowed orderings of a vs b) for a comparison of two simple operands, else None."""
+    n = fn.strip(cond)
+    if n is None:
+        return None
+    if n['k'] == 'UnaryOperator' and n.get('op') == '!':
+        r = _relation(fn, fn.nodes[n['c'][0]])
+        if r is None:
+            return None
+        return (r[0], r[1], frozenset('<=>') - r[2])
+    if n['k'] != 'BinaryOperator' or n.get('op') not in _ORD:
+        return None
+    a = _operand(fn, fn.nodes[n['c'][0]])
+    b = _operand(fn, fn.nodes[n['c'][1]])
+    if a is None or b is None:
+        return None
+    return (a, b, _ORD[n['op']])
+
+
+def _canon(a, b, allowed):
+    if repr(b) < repr(a):
+        return b, a, frozenset(_FLIP[x] for x in allowed)
+    return a, b, allowed
+
+
+class _Facts:
+    """Immutable set of path facts: relations {(a, b): allowed} and constants {var: int}."""
+    __slots__ = ('rel', 'const', '_key')
+
+    def __init__(self, rel=None, const=None):
+        self.rel = rel or {}
+        self.const = const or {}
+        self._key = (frozenset(self.rel.items()), frozenset(self.const.items()))
+
+    def key(self):
+        return self._key
+
+    def _val(self, x):
+        if x[0] == 'c':
+            return x[1]
+        return self.const.get(x[1])
+
+    def assume(self, fn, cond, truth):
+        """Facts after taking the branch `cond == truth`, or None if that contradicts what is known."""
+        r = _relation(fn, cond)
+        if r is None:
+            return self
+        a, b, allowed = r
+        if not truth:
+            allowed = frozenset('<=>') - allowed
+        va, vb = self._val(a), self._val(b)
+        if va is not None and vb is not None:
+            actual = '<' if va < vb else ('=' if va == vb else '>')
+            return self if actual in allowed else None
+        a, b, allowed = _canon(a, b, allowed)
+        cur = self.rel.get((a, b), frozenset('<=>'))
+        new = cur & allowed
+        if not new:
+            return None
+        if new == cur:
+            return self
+        rel = dict(self.rel)
+        rel[(a, b)] = new
+        return _Facts(rel, self.const)
+
+    def kill(self, var, value=None):
+        if not any(('v', var) in k for k in self.rel) and var not in self.const and value is None:
+            return self
+        rel = {k: v for k, v in self.rel.items() if ('v', var) not in k}
+        const = {k: v for k, v in self.const.items() if k != var}
+        if value is not None:
+            const[var] = value
+        return _Facts(rel, const)
+
+    def step(self, fn, n):
+        """Facts after executing element node n."""
+        k = n['k']
+        if k in ('BinaryOperator', 'CompoundAssignOperator') and n.get('op') in ('=', '+=', '-=', '*=', '/=', '%=', '|=', '&=', '^=', '<<=', '>>='):
+            l = fn.strip(fn.nodes[n['c'][0]])
+            if l is not None and l['k'] == 'DeclRefExpr' and 'var' in l:
+                val = None
+                if n['op'] == '=':
+                    r = fn.strip(fn.nodes[n['c'][1]])
+                    if r is not None and r['k'] == 'IntegerLiteral':
+                        val = int(r['val'])
+                return self.kill(l['var'], val)
+            return self
+        if k == 'UnaryOperator' and n.get('op') in ('++', '--'):
+            l = fn.strip(fn.nodes[n['c'][0]])
+            if l is not None and l['k'] == 'DeclRefExpr' and 'var' in l:
+                return self.kill(l['var'])
+            return self
+        if k == 'DeclStmt':
+            f = self
+            for d in n.get('decls', []):
+                if 'var' in d:
+                    val = None
+                    if 'init' in d:
+                        r = fn.strip(fn.nodes[d['init']])
+                        if r is not None and r['k'] == 'IntegerLiteral':
+                            val = int(r['val'])
+                    f = f.kill(d['var'], val)
+            return f
+        if k in ('CallExpr', 'CXXMemberCallExpr', 'CXXOperatorCallExpr', 'CXXConstructExpr', 'CXXTemporaryObjectExpr'):
+            pm = n.get('pmut')
+            f = self
+            for j, a in enumerate(fn.call_args(n)):
+                x = fn.strip(a)
+                if x is not None and x['k'] == 'DeclRefExpr' and 'var' in x:
+                    if pm is None or j >= len(pm) or pm[j] != 'C' or n.get('unresolved'):
+                        f = f.kill(x['var'])
+                elif x is not None and x['k'] == 'UnaryOperator' and x.get('op') == '&':
+                    y = fn.strip(fn.nodes[x['c'][0]])
+                    if y is not None and y['k'] == 'DeclRefExpr' and 'var' in y:
+                        f = f.kill(y['var'])
+            return f
+        return self
+
+
+def search(fn, starts, stop, target, include_entry=False, exit_is_target=None, normal_only=False, feas=False):
+    if feas:
+        return _search_feas(fn, starts, stop, target, include_entry, exit_is_target, normal_only)
+    return _search(fn, starts, stop, target, include_entry, exit_is_target, normal_only)
+
+
+def _search_feas(fn, starts, stop, target, include_entry, exit_is_target, normal_only):
+    """As _search, but the state carries the FEAS facts and contradictory branches are not taken."""
+    q = deque()
+    seen = set()
+    parent = {}
+    exit_id = fn.cfg['exit']
+
+    def push(pos, facts, frm):
+        key = (pos, facts.key())
+        if key in seen:
+            return
+        seen.add(key)
+        parent[key] = frm
+        q.append((pos, facts))
+
+    def after(bid, i, facts):
+        """[(position, facts)] following element i of block bid."""
+        n = len(fn.blocks[bid]['elems'])
+        if i + 1 < n:
+            return [((bid, i + 1), facts)]
+        out = []
+        stack = [(bid, facts)]
+        visited = set()
+        while stack:
+            b, f = stack.pop()
+            blk = fn.blocks[b]
+            cond = blk.get('termcond', -1)
+            branching = blk.get('termk') in BRANCH_TERMS and cond is not None and cond >= 0 and len(blk['succs']) == 2
+            for idx, s in enumerate(blk['succs']):
+                if not isinstance(s, int):
+                    continue
+                f2 = f
+                if branching:
+                    f2 = f.assume(fn, fn.nodes[cond], idx == 0)
+                    if f2 is None:
+                        continue
+                if (s, f2.key()) in visited:
+                    continue
+                visited.add((s, f2.key()))
+                if fn.blocks[s]['elems']:
+                    out.append(((s, 0), f2))
+                else:
+                    if s == exit_id:
+                        out.append(((s, -1), f2))
+                    stack.append((s, f2))
+        return out
+
+    f0 = _Facts()
+    if include_entry:
+        e = fn.cfg['entry']
+        if fn.blocks[e]['elems']:
+            push((e, 0), f0, None)
+        else:
+            for p, f in after(e, -1, f0):
+                push(p, f, None)
+    for (b, i) in starts:
+        n = node_at(fn, b, i)
+        for p, f in after(b, i, f0):
+            push(p, f, ('start', b, i))
+
+    def witness(key):
+        path = []
+        cur = key
+        while cur is not None and cur[0] != 'start':
+            (b, i), _ = cur
+            if i >= 0:
+                n = node_at(fn, b, i)
+                if n is not None and (n['k'] in ('CXXMemberCallExpr', 'CallExpr', 'CXXOperatorCallExpr', 'ReturnStmt', 'CXXThrowExpr')
+                                      or fn.blocks[b].get('termcond') == n['id']):
+                    path.append('%s: %s' % (fn.loc(n), fn.s(n)[:100]))
+            else:
+                path.append('<function exit>')
+            cur = parent.get(cur)
+        if cur is not None and cur[0] == 'start':
+            n = node_at(fn, cur[1], cur[2])
+            if n is not None:
+                path.append('%s: %s' % (fn.loc(n), fn.s(n)[:100]))
+        else:
+            path.append('<function entry>')
+        path.reverse()
+        out = []
+        for s_ in path:
+            if not out or out[-1] != s_:
+                out.append(s_)
+        return out
+
+    while q:
+        pos, facts = q.popleft()
+        key = (pos, facts.key())
+        b, i = pos
+        if i == -1:
+            if exit_is_target is not None and exit_is_target(b):
+                return witness(key)
+            continue
+        n = node_at(fn, b, i)
+        if n is not None:
+            if target(n):
+                return witness(key)
+            if stop(n):
+                continue
+            if normal_only and n['k'] == 'CXXThrowExpr':
+                continue
+            facts = facts.step(fn, n)
+        for p, f in after(b, i, facts):
+            push(p, f, key)
+    return None
+
+
+def _search(fn, starts, stop, target, include_entry=False, exit_is_target=None, normal_only=False):
     """Forward search from the positions *after* each start position (and from function entry if
     include_entry).  Does not continue past positions where stop(node) holds.  Returns a witness
     path [node, ...] ending at the first position where target(node) holds, or None.
 
     starts: iterable of (block id, index).  exit_is_target(block id) may declare reaching the exit
-    block from a given predecessor a target (e.g. normal return)."""
+    block from a given predecessor a target (e.g. normal return).  normal_only: paths end at a throw
+    expression (exceptional exits are not followed to the exit block)."""
     q = deque()
     seen = set()
     parent = {}
@@ -108,6 +367,8 @@ def search(fn, starts, stop, target, include_entry=False, exit_is_target=None):
             if target(n):
                 return witness(pos)
             if stop(n):
+                continue
+            if normal_only and n['k'] == 'CXXThrowExpr':
                 continue
         for p in succ_positions(b, i):
             push(p, pos)
